@@ -458,29 +458,22 @@ func runWritePath(c *core.Ctx) {
 	okWrite := false
 	var wpos token.Pos
 	detail := "marshalled bytes are not handed to a function that writes them"
-	for _, ci := range calls(loop) {
-		call, ok := ci.(*ssa.Call)
-		if !ok {
-			continue
+	// every conn.Write of the loop (its own or in a private helper it hands the bytes to)
+	// writes a text frame whose payload is the marshalled message
+	nw := 0
+	okWrite = true
+	for _, o := range an.RegionCalls(loop, nil, "(*github.com/coder/websocket.Conn).Write") {
+		w := o.In.(*ssa.Call)
+		nw++
+		wpos = o.Site().Pos()
+		k, isK := an.ConstInt(w.Call.Args[2])
+		if !(isK && k == 1 && o.Path(w.Call.Args[3]) == an.PathOf(marshal)+"#0") {
+			okWrite = false
+			detail = fmt.Sprintf("conn.Write is called with frame type %v and payload %s", w.Call.Args[2], o.Path(w.Call.Args[3]))
 		}
-		sc := an.StaticCallee(&call.Call)
-		if sc == nil || !P.InModule(sc) {
-			continue
-		}
-		for i, a := range call.Call.Args {
-			if an.PathOf(a) != an.PathOf(marshal)+"#0" {
-				continue
-			}
-			for _, w := range callsNamed(sc, "(*github.com/coder/websocket.Conn).Write") {
-				wpos = w.Pos()
-				k, isK := an.ConstInt(w.Call.Args[2])
-				if isK && k == 1 && w.Call.Args[3] == ssa.Value(sc.Params[i]) {
-					okWrite = true
-				} else {
-					detail = fmt.Sprintf("conn.Write is called with frame type %v and payload %s", w.Call.Args[2], an.PathOf(w.Call.Args[3]))
-				}
-			}
-		}
+	}
+	if nw == 0 {
+		okWrite = false
 	}
 	c.Check(okWrite, nil, fname(c, loop), "Marshal→Write(text)", P.Pos(wpos), "the marshalled bytes are written with conn.Write(ctx, MessageText, bytes)", detail)
 	// every conn.Write call site sits in a function whose only module callers are the write loop
